@@ -134,15 +134,15 @@ func runC04(c *Ctx, r *Rec) {
 		o := r.fail("D1-lock-discipline", construct, c.pos(f.Pos()), fmt.Sprintf("the field is not frozen (%s) and is accessed without the mutex in: %s - a data race", how, strings.Join(unguarded, ", ")))
 		o.Witness = "unguarded in " + strings.Join(unguarded, ",")
 	}
-	r.floor("D1-lock-discipline", 4)
+	r.floor("D1-lock-discipline", 2)
 
 	// ---- D2 pairing, D3 no blocking under lock
 	for _, name := range sortedKeys(ms) {
 		checkLockPairing(c, r, "D2-lock-pairing", info, ms[name], ms[name].Body, mkey, qr.mutexF.Name())
 	}
 	checkNoBlockingUnderLock(c, r, "D3-no-blocking-under-lock", qr)
-	r.floor("D2-lock-pairing", 7)
-	r.floor("D3-no-blocking-under-lock", 7)
+	r.floor("D2-lock-pairing", 3)
+	r.floor("D3-no-blocking-under-lock", 3)
 
 	// ---- D4 publish order
 	if fd := ms["AddValue"]; fd != nil {
@@ -469,7 +469,7 @@ func runC05(c *Ctx, r *Rec) {
 	for _, name := range sortedKeys(ms) {
 		checkLockPairing(c, r, "D4-lock-released", info, ms[name], ms[name].Body, objKey(qr.mutexF), qr.mutexF.Name())
 	}
-	r.floor("D4-lock-released", 7)
+	r.floor("D4-lock-released", 3)
 	checkNoBlockingUnderLock(c, r, "D4-no-wait-under-lock", qr)
 
 	// ---- D2 no self-fill
